@@ -77,7 +77,7 @@ def person(p_id, hh_id, **kw):
 
 def household(kind, hh_id=0, first_pid=0, year=2023, rng=None):
     """list of person rows. kinds: single, couple, married, single_parent, family, patchwork,
-    three_gen, adult_child, pensioners"""
+    three_gen, adult_child, pensioners, working_children"""
     rng = rng or random.Random(0)
     p = first_pid
     rows = []
@@ -130,6 +130,11 @@ def household(kind, hh_id=0, first_pid=0, year=2023, rng=None):
     elif kind == "adult_child":
         a = add(alter=52, bruttolohn_m=3000.0)
         add(alter=21, bruttolohn_m=900.0, p_id_elternteil_1=a, p_id_kindergeld_empf=a, in_ausbildung=True, eigenbedarf_gedeckt=rng.random() < 0.5)
+    elif kind == "working_children":
+        # two children under 25 who cover their own needs: each is a Bedarfsgemeinschaft of its own
+        a = add(alter=47, bruttolohn_m=2100.0, alleinerz=True, steuerklasse=2, weiblich=True)
+        for age, wage in ((20, 1500.0), (22, 1750.0)):
+            add(alter=age, bruttolohn_m=wage, p_id_elternteil_1=a, eigenbedarf_gedeckt=True)
     elif kind == "pensioners":
         a = add(alter=72, rentner=True, bruttolohn_m=0.0, arbeitsstunden_w=0.0, jahr_renteneintr=year - 7, entgeltp_west=28.0)
         b = add(alter=69, rentner=True, bruttolohn_m=0.0, arbeitsstunden_w=0.0, jahr_renteneintr=year - 4, entgeltp_west=12.0, weiblich=True)
@@ -140,7 +145,7 @@ def household(kind, hh_id=0, first_pid=0, year=2023, rng=None):
     return rows
 
 
-KINDS = ["single", "couple", "married", "single_parent", "single_father", "family", "patchwork", "three_gen", "adult_child", "pensioners"]
+KINDS = ["single", "couple", "married", "single_parent", "single_father", "family", "patchwork", "three_gen", "adult_child", "pensioners", "working_children"]
 
 
 def to_frame(rows):
